@@ -385,7 +385,7 @@ fn suite_objects<S: ShortGroupSignatureScheme>(em: &mut Emitter, rng: &mut Rng, 
     // presentation schemas and presentations with every statement / proof kind
     for k in 0..em.n(3, 30) {
         let mix = if k == 0 {
-            Mix { n_creds: 2, n_claims: 4, disclosed: vec![vec!["city".into()], vec!["age".into()]], revocation: true, membership: true, equality: true, commitment: Some(2), range: Some((Some(0), None)), verenc: Some((3, true)), ved: None, age: 40, shuffle: false, zero_ssn: false }
+            Mix { n_creds: 2, n_claims: 4, disclosed: vec![vec!["city".into()], vec!["age".into()]], revocation: true, membership: true, equality: true, commitment: Some(2), range: Some((Some(0), None)), verenc: Some((3, true)), ved: None, age: 40, shuffle: false, zero_ssn: false, same_issuer: false }
         } else if k == 1 {
             Mix { n_creds: 1, n_claims: 5, disclosed: vec![vec!["name".into()]], ved: Some(3), commitment: Some(2), range: Some((None, Some(99))), age: 21, ..Default::default() }
         } else {
